@@ -561,7 +561,12 @@ def run(out, ctx):
                 "non-broadcastable pairs: Coq None <-> torch raises; broadcastable pairs: every element b of the "
                 "broadcast batch x every module family; slice indices from the Coq model, cross-checked against "
                 "Tensor.expand; an output that comes back with an unexpanded batch shape u is read at bproj u b (expand "
-                "semantics; counted as unexpanded-output); non-trivial = broadcast batch has > 1 element")
+                "semantics; counted as unexpanded-output); every observable of a kernel / likelihood is evaluated separately so an "
+                "exception is attributed to the public call that raised; families: %d kernels (K, K(x,x2), diag, lazy diag, and "
+                "diag / lazy diag on n=3 points = a batch size), 2 means, 3 likelihoods, exact GP (data batch on train+test / train "
+                "only / test only: MLL, prior, posterior, predictive), whitened + unwhitened variational (predictive, KL, ELBO), "
+                "IndependentModelList + SumMarginalLogLikelihood; failure keys carry the input-class bits computed by the Coq model "
+                "(Models/C08_diag.v: expands_to, takes_diagonal); non-trivial = broadcast batch has > 1 element" % len(KERNELS))
     out.exhaustive = True
     out.extra["tolerances"] = {"replica": TOL}
     fams = families(tier)
